@@ -103,7 +103,9 @@ source_adapt(ByteSource source, void *driver, void *buf, const size_t n)
         if (rc == -EINTR || rc == -EAGAIN) {
             continue;
         } else if (rc < 0) {
-            return (ssize_t)rc;
+            /* Octets already delivered are reported first; the condition is
+             * seen again by the next call. */
+            return (rest < n) ? (ssize_t)(n - rest) : (ssize_t)rc;
         }
         rest -= rc;
     }
